@@ -502,7 +502,7 @@ def obligations(tier, seed):
             if T == 6:
                 pats = [patterns[k % 4]]
             for pat in pats:
-                batches = [(), (2,)] if (T <= 4 or k % 3 == 0) else [()]
+                batches = [(), (2,)] + ([(1,)] if T <= 3 else []) if (T <= 4 or k % 3 == 0) else [()]
                 for b in batches:
                     add("C06.ratio[tree=%s,dates=%s,batch=%s]" % (ts, pat, b), "scn_ratio", (ts, pat, b), "ratio parameterisation: valid + invertible")
                     if T <= 5:
